@@ -7,6 +7,7 @@ import (
 
 func init() {
 	vHarnesses["VerifH_C01_traversal"] = VerifH_C01_traversal
+	vHarnesses["VerifH_C01_path"] = VerifH_C01_path
 }
 
 // ---------------------------------------------------------------------------
@@ -677,4 +678,162 @@ func c01QEq(a, b *gripql.QueryResult) bool {
 		return c01JSONEq(a.GetRender().AsInterface(), b.GetRender().AsInterface())
 	}
 	return a == b
+}
+
+// ---------------------------------------------------------------------------
+// path(): every row reports the elements it visited - the start element and
+// the element reached by every move, in order; filters add nothing.
+// ---------------------------------------------------------------------------
+
+type c01PRow struct {
+	cur  *rElem
+	path string
+}
+
+func c01PStep(e *rElem) string {
+	if e.edge {
+		return "e:" + e.id + ";"
+	}
+	return "v:" + e.id + ";"
+}
+
+// VerifH_C01_path: start, up to M moves (out/in/both/outE/inE/bothE, hasLabel in
+// between), then path(): the multiset of reported paths equals the reference's.
+func VerifH_C01_path() {
+	M := vParam("M", 3)
+	g := c02Graph(vParam("NE", 2))
+	g.honourLoad = false
+	g.compiler = func(g *vGraph) gdbi.Compiler { return NewCompiler(g, IndexStartOptimize) }
+	ref := rFromGraph(g)
+	var stmts []*gripql.GraphStatement
+	var rows []c01PRow
+	typ := tVertex
+	switch []int{0, 2, 1}[vChoice("start", vParam("STARTS", 3))] {
+	case 0:
+		stmts = append(stmts, sV())
+		for _, v := range ref.vs {
+			rows = append(rows, c01PRow{v, c01PStep(v)})
+		}
+	case 1:
+		i := vSymID("start.i", 'a', 'c')
+		stmts = append(stmts, sV(i))
+		if v := ref.vertex(i); v != nil {
+			rows = append(rows, c01PRow{v, c01PStep(v)})
+		}
+	default:
+		stmts = append(stmts, sE())
+		typ = tEdge
+		for _, e := range ref.es {
+			rows = append(rows, c01PRow{e, c01PStep(e)})
+		}
+	}
+	n := 1 + vChoice("moves", M)
+	for i := 0; i < n; i++ {
+		name := "m" + string(rune('0'+i))
+		kind := []string{"out", "in", "both", "outE", "inE", "bothE", "hasLabel"}[vChoice(name, 7)]
+		var next []c01PRow
+		switch kind {
+		case "hasLabel":
+			l := vSymID(name+".l", 'A', 'B')
+			stmts = append(stmts, sHasLabel(l))
+			for _, r := range rows {
+				if r.cur.label == l {
+					next = append(next, r)
+				}
+			}
+			rows = next
+			continue
+		case "out", "in", "both":
+			stmts = append(stmts, map[string]*gripql.GraphStatement{"out": sOut(), "in": sIn(), "both": sBoth()}[kind])
+			for _, r := range rows {
+				if typ == tVertex {
+					for _, e := range ref.es {
+						if (kind == "in" || kind == "both") && e.to == r.cur.id {
+							if v := ref.vertex(e.from); v != nil {
+								next = append(next, c01PRow{v, r.path + c01PStep(v)})
+							}
+						}
+						if (kind == "out" || kind == "both") && e.from == r.cur.id {
+							if v := ref.vertex(e.to); v != nil {
+								next = append(next, c01PRow{v, r.path + c01PStep(v)})
+							}
+						}
+					}
+				} else {
+					if kind == "in" || kind == "both" {
+						if v := ref.vertex(r.cur.from); v != nil {
+							next = append(next, c01PRow{v, r.path + c01PStep(v)})
+						}
+					}
+					if kind == "out" || kind == "both" {
+						if v := ref.vertex(r.cur.to); v != nil {
+							next = append(next, c01PRow{v, r.path + c01PStep(v)})
+						}
+					}
+				}
+			}
+			typ = tVertex
+		default:
+			vAssume(typ == tVertex) // edge moves start from vertices (typing is C01_traversal's subject)
+			stmts = append(stmts, map[string]*gripql.GraphStatement{"outE": sOutE(), "inE": sInE(), "bothE": sBothE()}[kind])
+			for _, r := range rows {
+				for _, e := range ref.es {
+					if (kind == "inE" || kind == "bothE") && e.to == r.cur.id {
+						next = append(next, c01PRow{e, r.path + c01PStep(e)})
+					}
+					if (kind == "outE" || kind == "bothE") && e.from == r.cur.id {
+						next = append(next, c01PRow{e, r.path + c01PStep(e)})
+					}
+				}
+			}
+			typ = tEdge
+		}
+		rows = next
+	}
+	stmts = append(stmts, sPath())
+	pipe, err := g.Compiler().Compile(stmts, nil)
+	vAssert("C01.path.compiles", err == nil)
+	if err != nil {
+		return
+	}
+	got := vRunPipe(g, pipe, 2)
+	vReach("c01.path.ran")
+	var gotS []string
+	for _, q := range got {
+		p := q.GetPath()
+		s := ""
+		if p == nil {
+			s = "not-a-path"
+		} else {
+			for _, x := range p.Values {
+				m := x.GetStructValue().GetFields()
+				if v, ok := m["vertex"]; ok {
+					s += "v:" + v.GetStringValue() + ";"
+				} else if e, ok := m["edge"]; ok {
+					s += "e:" + e.GetStringValue() + ";"
+				} else {
+					s += "?;"
+				}
+			}
+		}
+		gotS = append(gotS, s)
+	}
+	same := len(gotS) == len(rows)
+	for _, w := range rows {
+		nw, ng := 0, 0
+		for _, w2 := range rows {
+			if w2.path == w.path {
+				nw++
+			}
+		}
+		for _, s := range gotS {
+			if s == w.path {
+				ng++
+			}
+		}
+		if nw != ng {
+			same = false
+		}
+	}
+	vAssert("C01.path.rows-equal-reference", same)
 }
